@@ -20,12 +20,16 @@ function `S.mix`.  All theorems hold ∀ S, ∀ histories (lists of operations),
 NOT proved (runtime facts no model of this code base exhibits; see `claims.d/C14.json`):
  * bit-identity of torch's CPU kernels across runs (the theorems say "equal inputs to `S.out`",
    the harness's two-process replay examines the implementation);
- * "a different seed yields different draws": only `C14_different_seed_partial` — the results
-   are a function of the seed's STREAM — is proved; that two seeds have different streams is a
-   property of torch's PRNG.  Full statement, not proved:
-     theorem C14_different_seed : s ≠ s' → (run S st (.setSeed s true :: ops)).2
+ * "a different seed yields different draws": only `C14_different_seed_partial` and
+   `C14_same_stream_same_results` — the results are a function of the STREAM of the seed word torch
+   derives from the seed (`seedWord`: any Python int in [-2^63, 2^64), reduced mod 2^64; everything
+   else is refused, `C14_seed_accepted` / `C14_seed_rejected`) — are proved; that two seed words have
+   different streams is a property of torch's PRNG (it reads the low 32 bits of the word; the harness
+   measures this directly on torch and requires different draws exactly when torch's own streams differ).
+   Full statement, not proved:
+     theorem C14_different_seed : seedWord s ≠ seedWord s' → (run S st (.setSeed s true :: ops)).2
                                           ≠ (run S st (.setSeed s' true :: ops)).2
-   (false for a constant `mix`, and for histories that draw nothing).
+   (false for a constant `mix`, for torch's seeds congruent mod 2^32, and for histories that draw nothing).
 -/
 import QV.Model.Frame
 import QV.Lemmas.Frame
@@ -75,29 +79,31 @@ theorem C14_frame_rng_unchanged (S : Sem P O) (ops : List Op) (hlibonly : ∀ op
 `set_random_seed(s)` is called.  Their three generators are ARBITRARY (whatever preceded the
 seeding does not matter).  They have allocated the same number of objects, hold the same files,
 and agree on the objects in slots `≥ b`; the histories after the seeding have the same library
-part and address only slots `≥ b`.  Then all results after the seeding are equal, and so are
+part and address only slots `≥ b`; the seed is ANY Python int torch accepts (`seedWord s = some w`:
+`-2^63 ≤ s < 2^64`).  Then all results after the seeding are equal, and so are
 the final torch generator, all parameters in slots `≥ b`, and the files. -/
 theorem C14_seeded_determinism (S : Sem P O) (b : Nat) (m₁ m₂ : St P)
     (hid : m₁.nextId = m₂.nextId) (hobjs : ∀ i, b ≤ i → m₁.objs i = m₂.objs i)
-    (hfiles : m₁.files = m₂.files) (s : Nat)
+    (hfiles : m₁.files = m₂.files) (s : Int) (w : Nat) (hs : seedWord s = some w)
     (suf₁ suf₂ : List Op) (hlib : lib suf₁ = lib suf₂) (hclosed : ClosedAbove b suf₁) :
     (run S m₁ (.setSeed s true :: suf₁)).2 = (run S m₂ (.setSeed s true :: suf₂)).2
       ∧ Agree b (run S m₁ (.setSeed s true :: suf₁)).1 (run S m₂ (.setSeed s true :: suf₂)).1 := by
-  have hA : Agree b (step S m₁ (.setSeed s true)).1 (step S m₂ (.setSeed s true)).1 :=
-    ⟨rfl, hid, hobjs, fun p => by show m₁.files p = m₂.files p; rw [hfiles]⟩
+  have hA : Agree b (step S m₁ (.setSeed s true)).1 (step S m₂ (.setSeed s true)).1 := by
+    rw [step_setSeed_ok S m₁ s w hs, step_setSeed_ok S m₂ s w hs]
+    exact ⟨rfl, hid, hobjs, fun p => by show m₁.files p = m₂.files p; rw [hfiles]⟩
   obtain ⟨h1, h2⟩ := run_agree S hA suf₁ suf₂ hlib hclosed
   rw [run_cons, run_cons]
   refine ⟨?_, h1⟩
   simp only [Op.isExternal, Bool.false_eq_true, if_false, h2]
-  rfl
+  rw [step_setSeed_ok S m₁ s w hs, step_setSeed_ok S m₂ s w hs]
 
 /-- **C14.2a** equal parameter stores at the seeding point: nothing else is needed. -/
 theorem C14_seeded_determinism_same_store (S : Sem P O) (m₁ m₂ : St P)
     (hid : m₁.nextId = m₂.nextId) (hobjs : m₁.objs = m₂.objs) (hfiles : m₁.files = m₂.files)
-    (s : Nat) (suf₁ suf₂ : List Op) (hlib : lib suf₁ = lib suf₂) :
+    (s : Int) (w : Nat) (hs : seedWord s = some w) (suf₁ suf₂ : List Op) (hlib : lib suf₁ = lib suf₂) :
     (run S m₁ (.setSeed s true :: suf₁)).2 = (run S m₂ (.setSeed s true :: suf₂)).2
       ∧ (run S m₁ (.setSeed s true :: suf₁)).1.objs = (run S m₂ (.setSeed s true :: suf₂)).1.objs := by
-  obtain ⟨h1, h2⟩ := C14_seeded_determinism S 0 m₁ m₂ hid (fun i _ => by rw [hobjs]) hfiles s suf₁ suf₂ hlib
+  obtain ⟨h1, h2⟩ := C14_seeded_determinism S 0 m₁ m₂ hid (fun i _ => by rw [hobjs]) hfiles s w hs suf₁ suf₂ hlib
     (fun _ _ _ _ => Nat.zero_le _)
   exact ⟨h1, funext (fun i => h2.objs i (Nat.zero_le _))⟩
 
@@ -107,13 +113,13 @@ the parameters of all those objects are equal. -/
 theorem C14_seeded_determinism_fresh_objects (S : Sem P O) (m₁ m₂ : St P)
     (hid : m₁.nextId = m₂.nextId)
     (hwf₁ : ∀ i, m₁.nextId ≤ i → m₁.objs i = none) (hwf₂ : ∀ i, m₂.nextId ≤ i → m₂.objs i = none)
-    (hfiles : m₁.files = m₂.files) (s : Nat)
+    (hfiles : m₁.files = m₂.files) (s : Int) (w : Nat) (hs : seedWord s = some w)
     (suf₁ suf₂ : List Op) (hlib : lib suf₁ = lib suf₂) (hclosed : ClosedAbove m₁.nextId suf₁) :
     (run S m₁ (.setSeed s true :: suf₁)).2 = (run S m₂ (.setSeed s true :: suf₂)).2
       ∧ ∀ i, m₁.nextId ≤ i →
           (run S m₁ (.setSeed s true :: suf₁)).1.objs i = (run S m₂ (.setSeed s true :: suf₂)).1.objs i := by
   obtain ⟨h1, h2⟩ := C14_seeded_determinism S m₁.nextId m₁ m₂ hid
-    (fun i hi => by rw [hwf₁ i hi, hwf₂ i (hid ▸ hi)]) hfiles s suf₁ suf₂ hlib hclosed
+    (fun i hi => by rw [hwf₁ i hi, hwf₂ i (hid ▸ hi)]) hfiles s w hs suf₁ suf₂ hlib hclosed
   exact ⟨h1, h2.objs⟩
 
 /-- **C14.2c (whole histories).** Two runs from arbitrary processes with arbitrary, different
@@ -123,12 +129,12 @@ prefix coincide. -/
 theorem C14_seeded_determinism_histories (S : Sem P O) (b : Nat) (st₁ st₂ : St P) (pre₁ pre₂ : List Op)
     (hid : (run S st₁ pre₁).1.nextId = (run S st₂ pre₂).1.nextId)
     (hobjs : ∀ i, b ≤ i → (run S st₁ pre₁).1.objs i = (run S st₂ pre₂).1.objs i)
-    (hfiles : (run S st₁ pre₁).1.files = (run S st₂ pre₂).1.files) (s : Nat)
+    (hfiles : (run S st₁ pre₁).1.files = (run S st₂ pre₂).1.files) (s : Int) (w : Nat) (hs : seedWord s = some w)
     (suf₁ suf₂ : List Op) (hlib : lib suf₁ = lib suf₂) (hclosed : ClosedAbove b suf₁) :
     (run S st₁ (pre₁ ++ .setSeed s true :: suf₁)).2.drop (run S st₁ pre₁).2.length
       = (run S st₂ (pre₂ ++ .setSeed s true :: suf₂)).2.drop (run S st₂ pre₂).2.length
     ∧ Agree b (run S st₁ (pre₁ ++ .setSeed s true :: suf₁)).1 (run S st₂ (pre₂ ++ .setSeed s true :: suf₂)).1 := by
-  obtain ⟨h1, h2⟩ := C14_seeded_determinism S b _ _ hid hobjs hfiles s suf₁ suf₂ hlib hclosed
+  obtain ⟨h1, h2⟩ := C14_seeded_determinism S b _ _ hid hobjs hfiles s w hs suf₁ suf₂ hlib hclosed
   rw [run_append, run_append]
   simp only [List.drop_left]
   exact ⟨h1, h2⟩
@@ -200,14 +206,15 @@ theorem C14_draw_count_step (S : Sem P O) (st : St P) (op : Op) (h : ∀ s', op 
   step_torchGen S st op h
 
 /-- **C14.4 (histories).** After `set_random_seed(s)` and any history without a further
-effective seeding, torch's generator is at position `Σ draws` of the stream of `s`. -/
-theorem C14_draw_count (S : Sem P O) (s : Nat) (ops : List Op) (h : ∀ op ∈ ops, ∀ s', op ≠ .setSeed s' true) :
+effective seeding, torch's generator is at position `Σ draws` of the stream of the seed word of `s`. -/
+theorem C14_draw_count (S : Sem P O) (s : Int) (w : Nat) (hs : seedWord s = some w) (ops : List Op)
+    (h : ∀ op ∈ ops, ∀ s', op ≠ .setSeed s' true) :
     ∀ st : St P, (run S st (.setSeed s true :: ops)).1.torchGen
-      = ⟨s, histDraws S (step S st (.setSeed s true)).1 ops⟩ := by
+      = ⟨w, histDraws S (step S st (.setSeed s true)).1 ops⟩ := by
   intro st
   rw [run_cons]
   show (run S (step S st (.setSeed s true)).1 ops).1.torchGen = _
-  have hg : (step S st (.setSeed s true)).1.torchGen = ⟨s, 0⟩ := rfl
+  have hg : (step S st (.setSeed s true)).1.torchGen = ⟨w, 0⟩ := by rw [step_setSeed_ok S st s w hs]
   have key : ∀ (ops : List Op), (∀ op ∈ ops, ∀ s', op ≠ .setSeed s' true) → ∀ (m : St P),
       (run S m ops).1.torchGen = ⟨m.torchGen.seedOf, m.torchGen.pos + histDraws S m ops⟩ := by
     intro ops
@@ -250,14 +257,58 @@ used: replacing `S.mix` by any `mix'` with the same stream for `s` (and for any 
 changes nothing.  I.e. the draws are a function of the seed's stream.
 NOT proved: that different seeds have different streams (a property of torch's PRNG), hence not
 "a different seed yields different draws". -/
-theorem C14_different_seed_partial (S : Sem P O) (mix' : Nat → Nat → Nat) (s : Nat) (st : St P)
-    (ops : List Op) (hs : StreamEq S.mix mix' s)
-    (hseeds : ∀ op ∈ ops, ∀ s', op = .setSeed s' true → StreamEq S.mix mix' s')
+theorem C14_different_seed_partial (S : Sem P O) (mix' : Nat → Nat → Nat) (s : Int) (w : Nat)
+    (hw : seedWord s = some w) (st : St P)
+    (ops : List Op) (hs : StreamEq S.mix mix' w)
+    (hseeds : ∀ op ∈ ops, ∀ s' w', op = .setSeed s' true → seedWord s' = some w' → StreamEq S.mix mix' w')
     (hlibonly : ∀ op ∈ ops, op.isExternal = false) :
     run (S.withMix mix') st (.setSeed s true :: ops) = run S st (.setSeed s true :: ops) := by
   rw [run_cons, run_cons]
   have h0 : step (S.withMix mix') st (.setSeed s true) = step S st (.setSeed s true) := rfl
-  rw [h0, run_withMix S mix' ops (step S st (.setSeed s true)).1 hs hseeds hlibonly]
+  have hg : (step S st (.setSeed s true)).1.torchGen.seedOf = w := by rw [step_setSeed_ok S st s w hw]
+  rw [h0, run_withMix S mix' ops (step S st (.setSeed s true)).1 (by rw [hg]; exact hs) hseeds hlibonly]
+
+/-- **C14.5' (which seeds are seeds).** `set_random_seed(s)` hands `s` to torch unchanged, so it is an effective
+seeding exactly for the Python ints torch accepts, `-2^63 ≤ s < 2^64`, and then the generator restarts at
+position 0 of the stream of `s mod 2^64`. In particular two accepted seeds are identified by the library
+ONLY if they are congruent modulo 2^64 (`-1` and `2^64 - 1`) — not modulo 2^31 or 2^32. -/
+theorem C14_seed_accepted (S : Sem P O) (st : St P) (s : Int)
+    (hlo : -9223372036854775808 ≤ s) (hhi : s < 18446744073709551616) :
+    step S st (.setSeed s true) = ({ st with torchGen := ⟨(s % 18446744073709551616).toNat, 0⟩ }, .none) :=
+  step_setSeed_ok S st s _ (by simp [seedWord, hlo, hhi])
+
+/-- … every other int is refused with `ValueError` and NOTHING changes (the process is not seeded); with
+`cpu=False` the call never touches torch's CPU generator, whatever the seed. -/
+theorem C14_seed_rejected (S : Sem P O) (st : St P) (s : Int)
+    (h : s < -9223372036854775808 ∨ 18446744073709551616 ≤ s) :
+    step S st (.setSeed s true) = (st, .err .ValueError) ∧ step S st (.setSeed s false) = (st, .none) := by
+  refine ⟨step_setSeed_rejected S st s ?_, rfl⟩
+  unfold seedWord
+  rw [if_neg]
+  omega
+
+theorem C14_seed_cpu_false (S : Sem P O) (st : St P) (s : Int) : step S st (.setSeed s false) = (st, .none) := rfl
+
+/-- distinct accepted seeds give distinct seed words unless they differ by exactly 2^64 -/
+theorem C14_seed_word_injective (s s' : Int) (w : Nat) (h : seedWord s = some w) (h' : seedWord s' = some w) :
+    s = s' ∨ s = s' + 18446744073709551616 ∨ s' = s + 18446744073709551616 := by
+  unfold seedWord at h h'
+  split at h <;> split at h' <;> simp only [Option.some.injEq, reduceCtorEq] at h h'
+  omega
+
+/-- **C14.5'' (same stream ⇒ same results).** Two seedings whose seed words have the same stream under `S.mix`
+(for torch: words congruent modulo 2^32) are followed by exactly the same results, for every history — the
+converse direction of "a different seed yields different draws" that IS a theorem: results depend on the seed
+through its stream only. -/
+theorem C14_same_stream_same_results (S : Sem P O) (st : St P) (s s' : Int) (w w' : Nat)
+    (hw : seedWord s = some w) (hw' : seedWord s' = some w') (hstream : ∀ i, S.mix w i = S.mix w' i)
+    (ops : List Op) :
+    (run S st (.setSeed s true :: ops)).2 = (run S st (.setSeed s' true :: ops)).2 := by
+  rw [run_cons, run_cons, step_setSeed_ok S st s w hw, step_setSeed_ok S st s' w' hw']
+  simp only [Op.isExternal, Bool.false_eq_true, if_false]
+  have := run_relabel S ops { st with torchGen := ⟨w, 0⟩ } w' hstream
+  rw [← this]
+  rfl
 
 /-- the consumed draws are the next segment of the stream of the current seed -/
 theorem C14_draws_are_stream_segment (S : Sem P O) (g : Gen) (m : Nat) :
@@ -293,7 +344,7 @@ example : (run tokenSem exM₁ exSuf₁).2 ≠ (run tokenSem exM₂ exSuf₂).2 
 
 /-- … and WITH it they produce the same ones (instance of `C14_seeded_determinism`). -/
 example : (run tokenSem exM₁ (.setSeed 5 true :: exSuf₁)).2 = (run tokenSem exM₂ (.setSeed 5 true :: exSuf₂)).2 :=
-  (C14_seeded_determinism tokenSem 0 exM₁ exM₂ rfl (fun _ _ => rfl) rfl 5 exSuf₁ exSuf₂ (by decide)
+  (C14_seeded_determinism tokenSem 0 exM₁ exM₂ rfl (fun _ _ => rfl) rfl 5 5 (by decide) exSuf₁ exSuf₂ (by decide)
     (fun _ _ _ _ => Nat.zero_le _)).1
 
 /-- `set_random_seed(s, cpu=False)` is NOT a seeding: the conclusion fails for it. -/
@@ -304,6 +355,18 @@ example : (run tokenSem exM₁ (.setSeed 5 false :: exSuf₁)).2 ≠ (run tokenS
 `tokenSem.mix`, the analogue of the PRNG-quality assumption, not a theorem about all `S`). -/
 example : (run tokenSem exM₁ (.setSeed 5 true :: exSuf₁)).2 ≠ (run tokenSem exM₁ (.setSeed 6 true :: exSuf₁)).2 := by
   decide +kernel
+
+/-- … also for seeds that differ only in bit 31 (`7` and `7 + 2^31`) and for a negative seed and its absolute
+value; whereas `7` and `7 + 2^32` have the same stream under the token semantics (as they have for torch's
+mt19937) and, by `C14_same_stream_same_results`, the same results; and `-1` is the same seed as `2^64 - 1`. -/
+example : (run tokenSem exM₁ (.setSeed 7 true :: exSuf₁)).2 ≠ (run tokenSem exM₁ (.setSeed 2147483655 true :: exSuf₁)).2 := by
+  decide +kernel
+example : (run tokenSem exM₁ (.setSeed 5 true :: exSuf₁)).2 ≠ (run tokenSem exM₁ (.setSeed (-5) true :: exSuf₁)).2 := by
+  decide +kernel
+example : (run tokenSem exM₁ (.setSeed 7 true :: exSuf₁)).2 = (run tokenSem exM₁ (.setSeed 4294967303 true :: exSuf₁)).2 :=
+  C14_same_stream_same_results tokenSem exM₁ 7 4294967303 7 4294967303 (by decide) (by decide) (fun _ => rfl) exSuf₁
+example : seedWord (-1) = seedWord 18446744073709551615 := by decide
+example : seedWord 18446744073709551616 = none ∧ seedWord (-9223372036854775809) = none := by decide
 
 /-- draw counts of the example: density matrix n=2,h=3,a=1 → 2·(3·2+1·2) = 16 normals;
 `sample(k=2, 5 chains)` → 5·2 + 2·5·(3+1+2) = 70; a fit of a positive state with N=10, B=4,
